@@ -85,6 +85,11 @@ InitTallMedium == { f \in InitAll : SortAsc(f[1]) = <<1, 5, 5, 5>> }
 \* rejection bounds do not fall on grid points and several passes reject something, so the convergence criteria decide
 InitSpread == { f \in InitAll : f[1] \in { <<1, 2, 4, 7>>, <<7, 4, 1, 2>> } }      \* two orderings (outlier last / first)
 
+\* two azimuths that need DIFFERENT numbers of rejection passes (n = 1: windows <<1, 2, 4>> need two passes, <<4, 5, 6>> one), the slower
+\* azimuth first and last: the count returned for an azimuthal result is the largest over the azimuths
+InitAzDiffer == IF NA = 2 /\ NW = 3 THEN { << <<1, 2, 4>>, <<4, 5, 6>> >>, << <<4, 5, 6>>, <<1, 2, 4>> >> } ELSE {}
+InitEnvAz == InitEnv \cup InitAzDiffer
+
 \* window sets that reach the algorithm's zero guards: three equal peaks and an outlier (the standard deviation becomes 0 after the
 \* first pass), a symmetric set (mean fn = mean-curve peak), all peaks equal, two equal pairs
 InitZero == { f \in InitAll : f[1] \in { <<2, 2, 2, 7>>, <<7, 2, 2, 2>>, <<2, 3, 4, 3>>, <<3, 3, 3, 3>>, <<2, 2, 6, 6>>, <<3, 2, 4, 3>> } }
